@@ -16,19 +16,33 @@ from checks import c08
 TRUST = ("Lean 4.33 kernel; axioms at most propext/Classical.choice/Quot.sound (audited per run); hand-written trainer/solver "
          "model tied by bit-for-bit correspondence with CSvmTrainer on exact (integer-point, linear-kernel) data; ")
 MANIFEST = dict(
-  text=("Theorems (Props/C07.lean) over Rat about the solver/trainer model: objective_recomputed -- the objective reported by "
-        "the solver (0.5*(g+lin).alpha) equals the recomputed dual objective lin.alpha - 0.5*alpha^T K alpha whenever the "
-        "gradient invariant of C08 holds for all variables; stop_implies_kkt -- when the model of QpSolver::solve leaves its "
-        "loop with AccuracyReached, the KKT violation (checkKKT) of the un-shrunk state, which is the state reported, is below eps. "
+  text=("Theorems (Props/C07.lean) over Rat, all sizes. objective_recomputed -- the objective reported by the solver "
+        "(0.5*(g+lin).alpha) equals the recomputed dual objective lin.alpha - 0.5*alpha^T K alpha whenever the gradient invariant "
+        "of C08 holds for all variables; stop_implies_kkt -- when the model of QpSolver::solve leaves its loop with "
+        "AccuracyReached, the KKT violation (checkKKT) of the un-shrunk state, which is the state reported, is below eps; "
+        "stopped_pairwise_svm / stopped_kkt_box -- under the C08 invariant that checkKKT bound IS the KKT condition on the "
+        "coefficients (g_i - g_j <= eps for every i below its upper and j above its lower bound; resp. every single violation "
+        "<= eps); kkt_eps_near_optimal / kkt_eps_near_optimal_box -- for any symmetric PSD quadratic form, a feasible point that "
+        "satisfies these KKT conditions up to eps has dual objective within eps*sum(U-L) of EVERY feasible point (with the same "
+        "coefficient sum when a bias is trained): direct concavity argument, with exists_bias; stopped_near_optimal_svm/_box -- "
+        "the same for the state the solver reports; config_independence(_box) -- two runs of any configuration (shrinking, "
+        "cache, precomputation, warm start) that both report AccuracyReached differ in dual objective by at most eps*sum(U-L) "
+        "(explicit constant; the oracle tests against 2*eps*sum(U-L)); bias_in_kkt_interval_partial -- the value returned by "
+        "the model of computeBias (free-variable mean, else midpoint of the two bounds) satisfies g_i - b <= eps for i not at "
+        "the upper and b - g_j <= eps for j not at the lower bound, for non-degenerate boxes and gradients inside the C++ "
+        "sentinel range [-1e100,1e100] (bias_degenerate_box_witness, bias_sentinel_witness outside); unpermute_correct -- "
+        "getUnpermutedAlpha inverts every injective accumulated permutation. "
         "Tie: the Float instance of the trainer model (problem set-up, solver loop, un-permutation, computeBias) equals the real "
         "CSvmTrainer bit-for-bit (coefficients, bias, stop reason, iteration count) on integer-point data with the linear "
         "kernel; an independent trainer-level oracle (own kernel matrix; box, equality constraint, KKT(eps), bias interval, "
         "reported objective) runs over the configuration cross bias x shrinking x precomputed/cache sizes x C x eps x "
         "{linear, Gaussian} and compares the objectives across configurations against 2*eps*sum(U-L)."),
-  note=TRUST + "NOT proved (oracle / correspondence only): kkt_eps_near_optimal (the 2*eps*sum(U-L) bound is used by the oracle as a "
-       "test bound, not as a theorem), bias_in_kkt_interval, unpermute_correct; epsilon-regression and one-class trainers, "
-       "class-specific / per-example C and warm starts are not covered at trainer level (their problem classes are those of C08); "
-       "Gaussian kernels only through the toleranced oracle; termination of the solver is not claimed.",
+  note=TRUST + "Hypotheses carried by the theorems: PSD-ness and symmetry of the kernel matrix (kkt_eps_near_optimal, config_independence); "
+       "the C08 state invariant (proved for every solver history in Props/C08.lean: reachable_inv); bias_in_kkt_interval is "
+       "_partial (degenerate boxes L=U, e.g. an example weight of 0, and |gradient| > 1e100 are accepted by the C++ and break "
+       "it: witness theorems). NOT proved: that the solver reaches the accuracy (termination); epsilon-regression and one-class "
+       "trainers, class-specific / per-example C and warm starts are not covered at trainer level (their problem classes are "
+       "those of C08 and the optimality theorems apply to any box/linear term); Gaussian kernels only through the toleranced oracle.",
   technique="Lean 4 proof on a solver/trainer model + differential correspondence with the C++ trainer (bit-for-bit on exact data) + independent KKT oracle",
   design="§6 C07")
 
